@@ -179,6 +179,76 @@ pub fn run(meta: &Value, rows: &[Value], seed: usize, only_row: Option<usize>) -
                 }
             }
         }
+        // several rows per query: the whole query fails as soon as one (non-NULL) row overflows or divides by zero,
+        // wherever that row sits in the batch; otherwise every row has its exact value and NULL operands give NULL
+        {
+            let null_at = |j: usize| j % 4 == 1;
+            let tm = TableData {
+                name: format!("m{}", i),
+                len: n as u64,
+                cols: vec![
+                    ("id".into(), ColData::I64((0..n as i64).collect())),
+                    ("a".into(), ColData::I64(vec![a as i64; n])),
+                    ("b".into(), ColData::I64(edges.iter().map(|x| *x as i64).collect())),
+                    ("bn".into(), ColData::SparseI64((0..n).filter(|j| !null_at(*j)).map(|j| (j as u64, edges[j] as i64)).collect())),
+                ],
+            };
+            let _ = db::ingest(&db, event_buffer(&[tm]));
+            let mut windows: Vec<(usize, usize)> = vec![(0, n)];
+            let mut lo = (seed + i) % 2;
+            while lo + 4 <= n {
+                windows.push((lo, lo + 4));
+                lo += 2;
+            }
+            for (o, op) in ops.iter().enumerate() {
+                for (wi, (lo, hi)) in windows.iter().enumerate() {
+                    for form in 0..4 {
+                        if (form == 1 || form == 3) && a == i64::MIN as i128 {
+                            continue;
+                        }
+                        if (seed + i + o + wi + form) % 2 == 1 && wi > 0 {
+                            continue; // half of the windows per form and run
+                        }
+                        let nullable = form >= 2;
+                        let lhs = if form % 2 == 0 { "a".to_string() } else { format!("{}", a) };
+                        let sql = format!("SELECT id, {} {} {} FROM m{} WHERE id >= {} AND id < {}", lhs, op, if nullable { "bn" } else { "b" }, i, lo, hi);
+                        let live: Vec<usize> = (*lo..*hi).filter(|j| !(nullable && null_at(*j))).collect();
+                        let cells: Vec<(&str, i128)> = live.iter().map(|j| (row["row"]["d1"][*j][o]["cls"].as_str().unwrap(), num(&row["row"]["d1"][*j][o]["v"]))).collect();
+                        if cells.iter().any(|(c, v)| *c != "fail" && *v == i64::MAX as i128) {
+                            continue; // the reserved value 2^63-1
+                        }
+                        let must_fail = cells.iter().any(|(c, _)| *c == "fail");
+                        evals += 1;
+                        if must_fail {
+                            nontrivial += 1;
+                        }
+                        let verdict: Result<(), String> = match q(&db, &sql) {
+                            Err(e) if e.starts_with("FATAL") => Err(e),
+                            Err(e) => if must_fail { Ok(()) } else { Err(format!("the query failed although every row fits ({})", e)) },
+                            Ok(mut rows) => {
+                                if must_fail {
+                                    let j = live[cells.iter().position(|(c, _)| *c == "fail").unwrap()];
+                                    Err(format!("returned {} rows although row id = {} ({} {} {}) overflows / divides by zero", rows.len(), j, a, op, edges[j]))
+                                } else {
+                                    rows.sort_by_key(|r| if let Cell::Int(k) = r[0] { k } else { -1 });
+                                    let want: Vec<Vec<Cell>> = (*lo..*hi)
+                                        .map(|j| vec![Cell::Int(j as i64), if nullable && null_at(j) { Cell::Null } else { Cell::Int(num(&row["row"]["d1"][j][o]["v"]) as i64) }])
+                                        .collect();
+                                    if rows == want { Ok(()) } else { Err(format!("returned {:?}, expected {:?}", rows.iter().map(|r| r[1].short()).collect::<Vec<_>>(), want.iter().map(|r| r[1].short()).collect::<Vec<_>>())) }
+                                }
+                            }
+                        };
+                        if let Err(w) = verdict {
+                            let fatal = w.starts_with("FATAL");
+                            vio.push(json!({"prop": "C06", "oracle": if fatal { "completes" } else { "rows" }, "sql": sql, "class": if must_fail { "fail" } else { "exact" }, "exact": "", "what": w}));
+                            if fatal || vio.len() > 40 {
+                                return json!({"evals": evals, "nontrivial": nontrivial, "violations": vio, "panics": crate::util::take_panics()});
+                            }
+                        }
+                    }
+                }
+            }
+        }
         // a NULL operand makes the result NULL, not an error
         for op in &ops {
             for sql in [format!("SELECT a {} n FROM {} WHERE id = 1", op, tname), format!("SELECT n {} a FROM {} WHERE id = 1", op, tname),
